@@ -1,4 +1,5 @@
 CONSTANTS
+  Siblings = {"none", "ruled_before", "ruled_after", "plain_after"}
   Decors = {"none", "ts_readonly", "type_override", "ts_date"}
   Layouts = {"two", "then_word", "word_first", "subject_last", "word_last_only", "between_words"}
   EnumFieldRules = {"none", "camelCase", "SCREAMING-KEBAB-CASE"}
